@@ -336,7 +336,12 @@ class Gen:
                 pad, gv, v, g.name, cstr("g:" + g.name), gv, cstr("gh:" + g.name), gv))
             self.w("%s  for(auto %s : %s) { o.kv(\"e\", sbepp::size_bytes(%s));" % (pad, ev, gv, ev))
             self.sizes_level(g, ev, ind + 1)
-            self.w("%s  } }" % pad)
+            self.w("%s  }" % pad)
+            if not g.groups and not g.data:
+                # flat groups are random access: the same entries reached through operator[], front() and back()
+                self.w("%s  for(std::size_t i_ = 0; i_ < static_cast<std::size_t>(%s.size()); i_++) o.kv(\"ei\", sbepp::size_bytes(%s[static_cast<typename decltype(%s)::size_type>(i_)]));" % (pad, gv, gv, gv))
+                self.w("%s  if(!%s.empty()) { o.kv(\"ef\", sbepp::size_bytes(%s.front())); o.kv(\"eb\", sbepp::size_bytes(%s.back())); }" % (pad, gv, gv, gv))
+            self.w("%s}" % pad)
         for d in L.data:
             self.w("%so.kv(%s, sbepp::size_bytes(%s.%s()));" % (pad, cstr("d:" + d.name), v, d.name))
 
@@ -622,6 +627,10 @@ template<typename T> void cur_report(rt::Out& o, unsigned char* p, const char* n
     cur_report_impl(o, p, name, t, std::integral_constant<int,
         sbepp::is_composite<T>::value ? 4 : sbepp::is_enum<T>::value ? 1 : sbepp::is_set<T>::value ? 2 : sbepp::is_array_type<T>::value ? 3 : 0>());
 }
+// what a visitor callback received: a scalar wrapper (value()) or - only if the library hands out something the documentation does
+// not promise, e.g. the raw value of a constant - a plain arithmetic value, which is then reported like any other and fails the comparison
+template<typename T> typename std::enable_if<std::is_arithmetic<T>::value, T>::type plain_value(T t) { return t; }
+template<typename T> auto plain_value(T t) -> typename std::enable_if<!std::is_arithmetic<T>::value, decltype(t.value())>::type { return t.value(); }
 struct EnumVis
 {
     std::string name;
@@ -652,7 +661,7 @@ struct DumpVisitor
         sbepp::visit_children(t, *this);
         o.end();
     }
-    template<typename T> void emit_scalar(T t, const char* name, std::integral_constant<int, 0>) { o.F(name, rt::bits(t.value())); }
+    template<typename T> void emit_scalar(T t, const char* name, std::integral_constant<int, 0>) { o.F(name, rt::bits(plain_value(t))); }
     template<typename T> void emit_scalar(T t, const char* name, std::integral_constant<int, 1>)
     {
         o.F(name, rt::enum_bits(t));
@@ -721,7 +730,7 @@ struct EventVisitor
         count++;
         if(count == stop_at) stopped = true;
     }
-    template<typename T> std::string val(T t, std::integral_constant<int, 0>) { return rt::Out::hex64(rt::bits(t.value())); }
+    template<typename T> std::string val(T t, std::integral_constant<int, 0>) { return rt::Out::hex64(rt::bits(plain_value(t))); }
     template<typename T> std::string val(T t, std::integral_constant<int, 1>)
     {
         // enum: the value and the enumerator visit(enum) reports for it
